@@ -29,10 +29,12 @@ import (
 )
 
 type engine struct {
-	a   *lib.Args
-	rng *lib.Rng
-	m   *lib.Model
-	rep *lib.Report
+	a    *lib.Args
+	rng  *lib.Rng
+	m    *lib.Model
+	rep  *lib.Report
+	alt  map[string]int // per-class toggle: wrapper / direct call (C12)
+	note string         // appended to the next monitor verdict (which contexts were crossed)
 }
 
 // ---- primitive oracle (stdlib / third-party, called directly) ----
